@@ -112,7 +112,7 @@ def run(ctx):
     import eng_pool
 
     ctx.level = "model_checking"
-    procs = ctx.pick(6, 14)
+    procs = ctx.pick(12, 14)
     # 1. model + exhaustive histories
     cfg = ctx.pick("Engine.cfg", "Engine_thorough.cfg")
     r, hists = histories_from(ctx, cfg, coverage=ctx.quick, timeout=ctx.pick(900, 3000), heap="6g")
@@ -126,7 +126,7 @@ def run(ctx):
         ctx.coverage["tlc_action_coverage"] = {k: list(v) for k, v in r.coverage.items()}
     nexh = len(hists)
     # 2. long random histories
-    nsim = ctx.pick(12, 100)
+    nsim = ctx.pick(8, 60)
     rs, sim = histories_from(ctx, "Engine_sim.cfg", simulate=f"num={nsim // 4 + 1}", depth=600, seed=ctx.seed + 1,
                              timeout=ctx.pick(900, 3000))
     eng_tree.count_sim_states(ctx, rs)
@@ -175,7 +175,7 @@ def run(ctx):
         "exhaustive": True,
         "bounds": (f"all {nexh} histories of length 2 over 19 calls (9 core entry points x check/compile + compile() on 1)"
                    if ctx.quick else
-                   f"all {nexh} histories: length 3 over the 19 core calls + length 2 over all 30 calls (14 entry points "
+                   f"all {nexh} histories: length 3 over 16 core calls (8 entry points x check/compile) + length 2 over all 30 calls (14 entry points "
                    f"x check/compile + compile() on 2)") + f"; plus {len(sim)} random histories of length 12 over all 30 "
                   f"calls (seed {ctx.seed + 1})",
         "hugr_comparisons_with_fresh_process_reference": ndigest,
